@@ -2,9 +2,12 @@
 
 from __future__ import annotations
 
+import asyncio
+import contextlib
 import os
 import shutil
 import tempfile
+from concurrent.futures import ThreadPoolExecutor
 from datetime import datetime, timedelta, timezone
 from typing import Any
 
@@ -42,6 +45,8 @@ DICT_KEYS = ["a", "b", "n"]
 TYPED_KEYS = ["count", "label", "extra", "bag"]
 UNSER = "@@unserialisable"
 T0 = datetime(2024, 1, 1, tzinfo=timezone.utc)
+SMALL_PAGES = [2, 3, 5]  # generated stand-ins for the tick-replay page size (_TICK_PAGE_SIZE, 100 in the repository)
+TICK_OPS = {"tick", "tks", "gtk", "stk"}
 
 # state-store operations in the sense of the non-triviality rule (they touch the database)
 SS_OPS = {"get", "set", "gst", "sst", "edit", "clr"}
@@ -61,24 +66,38 @@ class _Side:
         self.single = single
         self.store: Any = None
         self.ss: dict[str, Any] = {}
+        # reference model of the tick log: per run the tick_data of every append this store acknowledged, in order
+        self.ticks: dict[str, list] = {}
+        self.model_viol: list[dict] = []
+        # stream_ticks reads performed (generator health): [ticks at start, ticks received, page queries issued, ended by the consumer, consumer ran an op]
+        self.reads: list[list] = []
 
 
 class C21(Prop):
     id = "C21"
     rule = (
-        "case = a generated sequence of 1-14 operations over SqliteWorkflowStore: handler update (upsert) / query / delete / "
-        "update_handler_status, append_event / query_events, append_tick / get_ticks / stream_ticks, get_legacy_ctx, and state-store "
+        "case = a tick-replay page size (the repository's 100, or a generated small stand-in 2/3/5) and a generated sequence of 1-16 "
+        "operations over SqliteWorkflowStore: handler update (upsert) / query / delete / "
+        "update_handler_status, append_event / query_events, append_tick (single, or a burst of 1-12 ticks; with the repository's page "
+        "size sometimes a burst of 95-215 ticks, so that histories span several replay pages, exact multiples of the page included) / "
+        "get_ticks / stream_ticks (consumed to the end, or abandoned after k ticks and closed, optionally with one other generated "
+        "operation executed by the consumer between two ticks of the stream), get_legacy_ctx, and state-store "
         "operations on stores obtained from create_state_store(run_id[, state_type, serialized_state, serializer]) for two DictState runs "
         "and two typed-model runs: get / set / get_state / set_state (same type, parent type, wrong type) / clear / edit_state (generated "
         "mutations, up to two nested store operations inside the block, optionally user code that raises), creation seeded from an "
         "in-memory payload or from another run's sqlite reference, and 'reopen' (end of process: the persistent connection is closed, a "
         "new store object is opened on the same file). The sequence is applied step by step to two stores on separate temp files, one "
         "opened with single_connection=True exactly as AgentCore does, one with the default per-call connections; after the generated "
-        "operations a read-only epilogue reads back all handlers and the events / ticks of every run the case appended to (the store must still "
+        "operations a read-only epilogue reads back all handlers and the events / ticks (get_ticks and a full stream_ticks replay, as a resumed run does) of every run the case appended to (the store must still "
         "work after use), then both stores are reopened and the same is read back again together with the state of every run the case used "
         "a state store for (everything written must have been committed). Oracle: differential - at every step both stores return equal normalised results (handlers as "
         "model_dump(mode='json') sorted by handler_id; events/ticks without the SQLite CURRENT_TIMESTAMP, which must parse to a datetime; "
-        "states as type name + model_dump) or raise the same exception class. Non-trivial = at least one state-store operation that "
+        "states as type name + model_dump) or raise the same exception class, and no operation may leave the event loop blocked. "
+        "Reference model for the tick log (both stores, each against its own acknowledged appends): get_ticks returns exactly the "
+        "acknowledged tick_data in append order with sequences 0..n-1; stream_ticks yields a prefix of that list which contains at least "
+        "every tick appended before the stream started (cut at k when the consumer stops after k) - ticks appended by the consumer during "
+        "the stream may or may not be included; a top-level tick operation with these valid arguments never raises. "
+        "Non-trivial = at least one state-store operation that "
         "touches the database (get/set/get_state/set_state/edit_state/clear or a seeded creation) is followed by another generated "
         "operation (after it in the sequence, or nested inside its edit_state block)."
     )
@@ -89,6 +108,13 @@ class C21(Prop):
         "SQLite CURRENT_TIMESTAMP columns are real wall-clock values and are dropped after a type check",
         "'reopen' emulates a process restart by closing the persistent connection (uncommitted work is rolled back, as at process exit) and constructing a new store on the same file",
         "query() results are compared as sets keyed by handler_id (SQL without ORDER BY promises no order)",
+        "the SQLite store's tick-replay page size (module constant _TICK_PAGE_SIZE = 100 in sqlite_workflow_store) is set by the harness to the "
+        "case's generated small value (2, 3 or 5) for the duration of the case and restored afterwards, so that page boundaries fall inside "
+        "short histories; the paging code itself is the repository's; cases with the repository's own page size and 95-215 ticks are kept "
+        "(about 2-4 % of quick cases with 98-130 ticks, more and up to 215 ticks in the thorough tier)",
+        "the case runs on the harness's virtual-time loop extended to wait (in real time) for worker threads the store code itself starts "
+        "(asyncio.to_thread / run_in_executor): the plain virtual loop would declare the case quiescent while such a thread is still running; "
+        "the executor is private to the case and shut down at its end",
     ]
     budgets = {"quick": 600, "thorough": 800}
     wall = {"quick": 45.0, "thorough": 300.0}
@@ -99,6 +125,7 @@ class C21(Prop):
         boot.seed_llama_agents()
         from llama_agents.client.protocol.serializable_events import EventEnvelopeWithMetadata
         from llama_agents.server._store import abstract_workflow_store as aws
+        from llama_agents.server._store.sqlite import sqlite_workflow_store as sqmod
         from llama_agents.server._store.sqlite.sqlite_workflow_store import SqliteWorkflowStore
         from workflows.context.serializers import JsonSerializer
         from workflows.context.state_store import DictState, create_in_memory_payload
@@ -106,6 +133,8 @@ class C21(Prop):
 
         boot.patch_datetime(aws)
         self.Store = SqliteWorkflowStore
+        self.sqmod = sqmod
+        self.real_page = int(sqmod._TICK_PAGE_SIZE)
         self.HandlerQuery = aws.HandlerQuery
         self.PersistentHandler = aws.PersistentHandler
         self.Envelope = EventEnvelopeWithMetadata
@@ -163,6 +192,8 @@ class C21(Prop):
         evt = st.tuples(st.just("evt"), run_evt, st.sampled_from(["Ev", "StopEvent", "WorkflowIdleEvent"]), jdict)
         qev = st.tuples(st.just("qev"), run_evt, opt(st.integers(-1, 4)), opt(st.integers(0, 3)))
         tick = st.tuples(st.just("tick"), run_evt, jdict)
+        # a burst of ticks (a run that made some progress): with the small page sizes 1-12 ticks span up to six replay pages
+        tks = st.tuples(st.just("tks"), run_evt, st.integers(1, 12), jdict)
         gtk = st.tuples(st.sampled_from(["gtk", "stk"]), run_evt)
         lctx = st.tuples(st.just("lctx"), run)
 
@@ -193,7 +224,13 @@ class C21(Prop):
         def mutation(r):
             return st.sampled_from(DICT_KEYS if r in DICT_RUNS else TYPED_KEYS).flatmap(lambda key: st.tuples(st.just(key), value_for(r, key)))
 
-        nested = st.one_of(upd, qry, dele, uhs, evt, qev, tick, gtk, get, gst)
+        nested = st.one_of(upd, qry, dele, uhs, evt, qev, tick, tks, gtk, get, gst)
+        # stream_ticks with a consumer that may stop after k ticks (and close the stream) and may run one other operation
+        # after receiving the tick at a generated index (i.e. between two ticks, sometimes between two pages, of the stream)
+        # (the large values only matter for histories longer than the repository's page size)
+        stop = opt(st.one_of(st.integers(1, 7), st.integers(1, 7), st.sampled_from([100, 101, 150])))
+        mid = opt(st.tuples(st.one_of(st.integers(0, 6), st.integers(0, 6), st.sampled_from([98, 99, 100])), nested))
+        stkx = st.tuples(st.just("stk"), run_evt, stop, mid)
         edit = run.flatmap(
             lambda r: st.tuples(
                 st.just("edit"),
@@ -204,9 +241,36 @@ class C21(Prop):
             )
         )
         reopen = st.tuples(st.just("reopen"))
-        op = st.one_of(upd, upd, upd, qry, dele, dele, uhs, evt, qev, tick, gtk, lctx, get, get, sset, sset, gst, gst, sst, sst, clr, clr, ssn, ssn, edit, edit, reopen, reopen)
+        op = st.one_of(upd, upd, upd, qry, dele, dele, uhs, evt, qev, tick, tks, tks, gtk, stkx, stkx, lctx, get, get, sset, sset, gst, gst, sst, sst, clr, clr, ssn, ssn, edit, edit, reopen, reopen)
+        # Tick storyline (half of the cases): a burst on one run and, later in the sequence, a stream_ticks replay of the same run,
+        # both inserted at generated positions among the other operations.  With the repository's own page size the burst is now and
+        # then longer than one real page (boundaries and exact multiples included); that costs ~0.3 s per case, hence rare in quick.
+        if tier == "quick":
+            long_every, long_n = 10, st.one_of(st.sampled_from([100, 101]), st.integers(98, 130))
+        else:
+            long_every, long_n = 3, st.one_of(st.sampled_from([99, 100, 101, 199, 200, 201]), st.integers(95, 215))
+
+        def with_page(page):
+            n = st.integers(1, 12)
+            if page is None:
+                n = st.integers(0, long_every - 1).flatmap(lambda i: long_n if i == 0 else st.integers(1, 12))
+            story = st.tuples(run_evt, n, jdict, stop, mid, st.integers(0, 12), st.integers(0, 12))
+            return st.tuples(st.just(page), st.one_of(st.none(), story))
+
+        page = st.sampled_from([None, None] + SMALL_PAGES + [3]).flatmap(with_page)
+
+        def build(t):
+            (pg, story), pre, ops = t
+            ops = list(ops)
+            if story is not None:
+                run_, n_, data_, stop_, mid_, a, b = story
+                i = min(a, len(ops))
+                ops.insert(i, ("tks", run_, n_, data_))
+                ops.insert(i + 1 + min(b, len(ops) - i - 1), ("stk", run_, stop_, mid_))
+            return _jsonable({"page": pg, "ops": list(pre) + ops})
+
         # a short prefix of handler upserts makes later queries / deletes / status updates hit existing rows
-        return st.tuples(st.lists(upd, max_size=2), st.lists(op, min_size=1, max_size=12)).map(lambda t: _jsonable(list(t[0]) + list(t[1])))
+        return st.tuples(page, st.lists(upd, max_size=2), st.lists(op, min_size=1, max_size=12)).map(build)
 
     # ------------------------------------------------------------------ applying one operation to one side
 
@@ -268,15 +332,41 @@ class C21(Prop):
             evs = await s.query_events(op[1], after_sequence=op[2] if len(op) > 2 else None, limit=op[3] if len(op) > 3 else None)
             return [[e.run_id, e.sequence, isinstance(e.timestamp, datetime), e.event.model_dump(mode="json")] for e in evs]
         if k == "tick":
-            return await s.append_tick(op[1], op[2])
+            res = await s.append_tick(op[1], op[2])
+            side.ticks.setdefault(op[1], []).append(op[2])  # acknowledged
+            return res
+        if k == "tks":
+            _, run, n, data = op
+            for i in range(n):
+                d = dict(data, i=i)
+                await s.append_tick(run, d)
+                side.ticks.setdefault(run, []).append(d)
+            return None
         if k == "gtk":
             ts = await s.get_ticks(op[1])
-            return [[t.run_id, t.sequence, isinstance(t.timestamp, datetime), t.tick_data] for t in ts]
+            rows = [[t.run_id, t.sequence, isinstance(t.timestamp, datetime), t.tick_data] for t in ts]
+            self._check_history(side, "get_ticks", op[1], rows, len(side.ticks.get(op[1], [])), None)
+            return rows
         if k == "stk":
-            out = []
-            async for t in s.stream_ticks(op[1]):
-                out.append([t.run_id, t.sequence, isinstance(t.timestamp, datetime), t.tick_data])
-            return out
+            run = op[1]
+            stop = op[2] if len(op) > 2 else None
+            mid = op[3] if len(op) > 3 else None
+            n0 = len(side.ticks.get(run, []))
+            out: list = []
+            mid_res = None
+            # the consumer: a plain `async for`, closed explicitly when it is abandoned early
+            async with contextlib.aclosing(s.stream_ticks(run)) as stream:
+                async for t in stream:
+                    out.append([t.run_id, t.sequence, isinstance(t.timestamp, datetime), t.tick_data])
+                    if mid is not None and len(out) - 1 == mid[0]:
+                        mid_res = ["mid", await self._apply(side, mid[1])]
+                    if stop is not None and len(out) >= stop:
+                        break
+            self._check_history(side, "stream_ticks", run, out, n0, stop)
+            abandoned = stop is not None and len(out) >= stop
+            P = self.page_now
+            side.reads.append([n0, len(out), -(-len(out) // P) if abandoned else len(out) // P + 1, abandoned, mid_res is not None])
+            return out if mid is None else [out, mid_res]
         if k == "lctx":
             return s.get_legacy_ctx(op[1])
         if k == "ssn":
@@ -337,6 +427,28 @@ class C21(Prop):
             return None
         raise AssertionError(f"unknown op {k}")
 
+    def _check_history(self, side: _Side, api: str, run: str, rows: list, n0: int, stop: int | None) -> None:
+        """Reference model of the tick log: `rows` must be a prefix of the acknowledged appends of `run` (sequences
+        0..n-1, append order) holding at least the `n0` ticks that existed when the read started (cut at `stop`)."""
+        log = side.ticks.get(run, [])
+        expected = [[run, i, True, d] for i, d in enumerate(log)]
+        lo = n0 if stop is None else min(n0, stop)
+        hi = len(log) if stop is None else min(len(log), stop)
+        if rows == expected[: len(rows)] and lo <= len(rows) <= hi:
+            return
+        diff = next((i for i, (a, b) in enumerate(zip(rows, expected)) if a != b), min(len(rows), len(expected)))
+        side.model_viol.append(
+            {
+                "api": api,
+                "store": "single_connection" if side.single else "per_call_connections",
+                "acknowledged": n0,
+                "returned": len(rows),
+                "stop_after": stop,
+                "first_difference_at": diff,
+                "got": canon(rows[diff : diff + 1])[:120],
+            }
+        )
+
     async def _step(self, side: _Side, op: list):
         try:
             return ["ok", await self._apply(side, op)], None
@@ -353,15 +465,12 @@ class C21(Prop):
         Before the reopen the sweep is read-only (it must not commit on the store's behalf: get_state()
         inserts a default row for a run without one).
         """
-        flat = []
-        for op in ops:
-            flat.append(op)
-            if op[0] == "edit":
-                flat.extend(op[3])
+        flat = _flat(ops)
         out = [["qry", {}]]
         for r in RUNS:
-            if any(op[0] == "tick" and op[1] == r for op in flat):
+            if any(op[0] in ("tick", "tks") and op[1] == r for op in flat):
                 out.append(["gtk", r])
+                out.append(["stk", r])  # replay the history the way a resumed run does
             if any(op[0] == "evt" and op[1] == r for op in flat):
                 out.append(["qev", r])
             if reopened and any((op[0] in SS_OPS or op[0] == "ssn") and op[1] == r for op in flat):
@@ -369,11 +478,21 @@ class C21(Prop):
         return out
 
     def run_case(self, case):
+        page, ops = _split(case)
+        saved = self.sqmod._TICK_PAGE_SIZE
+        if page is not None:
+            self.sqmod._TICK_PAGE_SIZE = page
+        self.page_now = page if page is not None else self.real_page
+        try:
+            return self._run_case(page, ops)
+        finally:
+            self.sqmod._TICK_PAGE_SIZE = saved
+
+    def _run_case(self, page, ops):
         r = CaseResult()
-        ops = case
         tmp = tempfile.mkdtemp(prefix="c21-", dir=self.tmproot)
         sides = [_Side(os.path.join(tmp, "default.sqlite"), False), _Side(os.path.join(tmp, "single.sqlite"), True)]
-        info = {"both_raised": 0, "steps": 0, "deleted_rows": False}
+        info: dict[str, Any] = {"both_raised": 0, "steps": 0, "deleted_rows": False, "at": None, "gen_reads": None, "done": False}
 
         async def main():
             last_ss = None  # last state-store API call that touched the database since the last reopen
@@ -382,9 +501,20 @@ class C21(Prop):
             script += [("epilogue", op) for op in self._epilogue(ops, False)] + [("epilogue", ["reopen"])]
             script += [("epilogue_reopened", op) for op in self._epilogue(ops, True)]
             for idx, (phase, op) in enumerate(script):
-                (a, _ea), (b, eb) = [await self._step(sd, op) for sd in sides]
+                if phase == "epilogue" and info["gen_reads"] is None:
+                    info["gen_reads"] = len(sides[0].reads)
+                res = []
+                for sd in sides:
+                    info["at"] = (phase, op[0], "single_connection" if sd.single else "per_call_connections")
+                    res.append(await self._step(sd, op))
+                (a, _ea), (b, eb) = res
                 info["steps"] += 1
                 this_ss = _ss_name(op)
+                bad = [dict(v, op=op[0], phase=phase, page=self.page_now) for sd in sides for v in sd.model_viol]
+                if bad:
+                    # the store contradicts its own acknowledged appends (reported before the differential: it names the faulty side)
+                    r.v("tick_history_wrong", **bad[0])
+                    return
                 if canon(a) != canon(b):
                     closed = eb is not None and type(eb).__name__ == "ProgrammingError" and "closed database" in str(eb)
                     if closed:
@@ -415,6 +545,10 @@ class C21(Prop):
                     return  # the two histories have diverged; later steps would only repeat it
                 if a[0] == "raise":
                     info["both_raised"] += 1
+                    if op[0] in TICK_OPS and not (len(op) > 3 and op[3] is not None):
+                        # append_tick / get_ticks / stream_ticks with valid arguments are total in the reference model
+                        r.v("tick_op_raised", op=op[0], phase=phase, exception=a[1], page=self.page_now)
+                        return
                 elif op[0] == "del" and a[1]:
                     info["deleted_rows"] = True
                 if op[0] == "reopen":
@@ -422,9 +556,14 @@ class C21(Prop):
                     since_reopen = idx > 0
                 elif this_ss is not None:
                     last_ss = this_ss
+            info["done"] = True
 
         try:
-            boot.run_virtual(main)
+            quiescent = _run_virtual_with_threads(main)
+            if quiescent and not info["done"] and not r.violations:
+                # nothing was left that could wake the operation up: it would have hung its caller forever
+                phase, kind, which = info["at"]
+                r.v("operation_blocked", op=kind, phase=phase, store=which, page=self.page_now)
         finally:
             for sd in sides:
                 conn = getattr(sd.store, "_persistent_conn", None) if sd.store is not None else None
@@ -466,7 +605,129 @@ class C21(Prop):
             r.classes.append("delete_removed_rows")
         if info["both_raised"]:
             r.classes.append("some_op_raised_in_both")
+        # tick replay: how often the new shapes (several pages per replay, abandoned streams, operations during a stream) are reached
+        reads = sides[0].reads
+        n_gen = len(reads) if info["gen_reads"] is None else info["gen_reads"]
+        gen_reads, epi_reads = reads[:n_gen], reads[n_gen:]
+        if page is not None:
+            r.classes.append("small_tick_page")
+        if any(op[0] == "tks" for op in _flat(ops)):
+            r.classes.append("tick_burst")
+        if any(rd[2] >= 2 for rd in gen_reads):
+            r.classes.append("stream_ticks_multi_page_generated_op")
+        if any(rd[2] >= 3 for rd in reads):
+            r.classes.append("stream_ticks_three_or_more_pages")
+        if any(rd[2] >= 2 for rd in epi_reads):
+            r.classes.append("stream_ticks_multi_page_epilogue")
+        if page is None and any(rd[2] >= 2 for rd in reads):
+            r.classes.append("stream_ticks_multi_page_real_page_size")
+        if any(not rd[3] and rd[1] > 0 and rd[1] % self.page_now == 0 for rd in reads):
+            r.classes.append("history_exact_multiple_of_page")
+        if any(rd[3] and rd[1] < rd[0] for rd in reads):
+            r.classes.append("stream_abandoned_early")
+        if any(rd[4] for rd in reads):
+            r.classes.append("op_during_stream")
+        if any(rd[4] and rd[1] > rd[0] for rd in reads):
+            r.classes.append("stream_saw_tick_appended_during_it")
         return r
+
+
+def _split(case) -> tuple[int | None, list]:
+    """(page size or None = the repository's, operations).  A bare operation list (replay files written before the
+    page size became part of the case) means the repository's page size."""
+    if isinstance(case, dict):
+        return case.get("page"), case["ops"]
+    return None, case
+
+
+def _flat(ops) -> list:
+    """All operations of a case including those nested in edit_state blocks and executed by stream consumers."""
+    flat = []
+    for op in ops:
+        flat.append(op)
+        if op[0] == "edit":
+            flat.extend(_flat(op[3]))
+        elif op[0] == "stk" and len(op) > 3 and op[3] is not None:
+            flat.extend(_flat([op[3][1]]))
+    return flat
+
+
+class _ThreadTolerantVLoop(boot.VLoop):
+    """boot.VLoop declares quiescence as soon as nothing is scheduled on the loop; a worker thread started by the code
+    under test (asyncio.to_thread / run_in_executor) is invisible to it.  While such a job is outstanding this loop
+    waits in real time for the thread's completion callback (it arrives through the loop's self-pipe)."""
+
+    def __init__(self) -> None:
+        super().__init__()
+        self.jobs = 0
+        sel = self._selector
+        vselect = sel.select
+        real_select = type(sel).select
+
+        def select(timeout=None):
+            try:
+                return vselect(timeout)
+            except boot.Quiescent:
+                if self.jobs <= 0:
+                    raise
+                return real_select(sel, 5.0)
+
+        sel.select = select  # type: ignore[method-assign]
+
+    def run_in_executor(self, executor, func, *args):
+        fut = super().run_in_executor(executor, func, *args)
+        self.jobs += 1
+
+        def done(_f) -> None:
+            self.jobs -= 1
+
+        fut.add_done_callback(done)
+        return fut
+
+
+def _run_virtual_with_threads(coro_fn) -> bool:
+    """boot.run_virtual on a _ThreadTolerantVLoop with a private executor.  Returns `quiescent` (the loop would have
+    blocked forever before the coroutine finished).  Nothing - tasks, worker threads - outlives the call."""
+    boot.VClock.reset()
+    boot.VClock.enabled = True
+    loop = _ThreadTolerantVLoop()
+    executor = ThreadPoolExecutor(max_workers=2, thread_name_prefix="c21-worker")
+    loop.set_default_executor(executor)
+    asyncio.set_event_loop(loop)
+    quiescent = False
+    error: BaseException | None = None
+    main = loop.create_task(coro_fn())
+    try:
+        try:
+            loop.run_until_complete(main)
+        except boot.Quiescent:
+            quiescent = True
+        except BaseException as e:  # noqa: BLE001
+            error = e
+    finally:
+        try:
+            for _ in range(8):
+                pending = [t for t in asyncio.all_tasks(loop) if not t.done()]
+                if not pending:
+                    break
+                for t in pending:
+                    t.cancel()
+                try:
+                    loop.run_until_complete(asyncio.gather(*pending, return_exceptions=True))
+                except BaseException:  # noqa: BLE001
+                    pass
+            try:
+                loop.run_until_complete(loop.shutdown_asyncgens())
+            except BaseException:  # noqa: BLE001
+                pass
+        finally:
+            executor.shutdown(wait=True)
+            asyncio.set_event_loop(None)
+            loop.close()
+            boot.VClock.enabled = False
+    if error is not None:
+        raise error
+    return quiescent
 
 
 def _ss_name(op) -> str | None:
